@@ -1,5 +1,6 @@
 import Drv.Json
 import NpsVerif.Model.Shape
+import NpsVerif.Model.Equals
 namespace Drv.C01
 open Lean Drv Model
 
@@ -25,11 +26,23 @@ def shape (j : Json) : Json :=
 def rows (j : Json) : Json :=
   let rs := jIntRows (fld j "rows")
   let a := RA.ofRows rs
+  -- `equals` against: the same rows built again (both ways round), the same rows with the LAST cell replaced (when there is
+  -- a cell), the same cells cut by the reversed row lengths (when the first and the last row differ in length)
+  let ieq : Int → Int → Bool := fun x y => x == y
+  let lens := rs.map List.length
+  let chg : List Bool := match rs.flatten.reverse with
+    | [] => []
+    | _ :: _ => ((RA.ofFlat (rs.flatten.dropLast ++ [-1]) lens).map (fun b => [a.equals ieq b])).getD []
+  let rev : List Bool := if lens.length ≥ 2 ∧ lens.head? ≠ lens.getLast? then
+      ((RA.ofFlat rs.flatten lens.reverse).map (fun b => [a.equals ieq b])).getD [] else []
+  let lEq : List Bool := [a.equals ieq (RA.ofRows rs), (RA.ofRows rs).equals ieq a] ++ chg ++ rev
+  let sEq : List Bool := [true, true] ++ (if rs.flatten.isEmpty then [] else [false])
+      ++ (if lens.length ≥ 2 ∧ lens.head? ≠ lens.getLast? then [false] else [])
   obj [("L", obj [("rows", toJson a.rows), ("len", toJson a.len), ("size", toJson a.size),
-                  ("lengths", toJson a.shape.lengths), ("ravel", toJson a.ravel),
+                  ("lengths", toJson a.shape.lengths), ("ravel", toJson a.ravel), ("equals", toJson lEq),
                   ("to_numpy", optJ a.toNumpy)]),
        ("S", obj [("rows", toJson rs), ("len", toJson rs.length), ("size", toJson (rs.map List.length).sum),
-                  ("lengths", toJson (rs.map List.length)), ("ravel", toJson rs.flatten),
+                  ("lengths", toJson (rs.map List.length)), ("ravel", toJson rs.flatten), ("equals", toJson sEq),
                   ("to_numpy", match rs with
                      | [] => toJson ([] : List (List Int))
                      | r :: rest => if rest.all (·.length == r.length) then toJson rs else refuse)])]
